@@ -96,6 +96,18 @@ class StreamModel(Model):
             if v.t is not None:
                 return v.t
             if isinstance(v.bound, VRef) and v.name:
+                eng = self.eng
+                mv = None
+                c = v.bound.cls
+                while c is not None and mv is None:
+                    mv = eng.reg.classes.get(c, {}).get("_methv")
+                    c = eng.reg.bases.get(c)
+                if mv:
+                    METHV = z3.Function("METHV", U, U, IntS, U, U)
+                    ds = eng.load_field(st, v.bound, mv[0])
+                    pr = eng.load_field(st, v.bound, mv[1])
+                    return METHV(eng.strconst(v.bound.cls),
+                                 eng.strconst(v.name), ds.t, pr.t)
                 return self.BOUND(v.bound.t, self.eng.strconst(v.name))
             if isinstance(v.bound, ast.Lambda):
                 return self.lambda_term(st, v.bound)
@@ -146,14 +158,6 @@ class StreamModel(Model):
     def call_dotted(self, st, d, node):
         eng = self.eng
         E = self.E
-        if d in ("itertools.cycle",):
-            arg = eng.eval(st, node.args[0])
-            if isinstance(arg, VList):
-                n_ = z3.simplify(arg.n)
-                if z3.is_int_value(n_) and n_.as_long() == 1:
-                    return NotImplemented  # ItertoolsModel: literal [x]
-                return VStream(self.CYC(self.seq_of_list(st, arg)))
-            return NotImplemented
         if d in ("itertools.chain.from_iterable",
                  "asyncstdlib.chain.from_iterable"):
             if d.startswith("asyncstdlib"):
@@ -349,8 +353,14 @@ class StreamModel(Model):
             st.ghost["__failed"] = True
             raise E.RaiseEx("Foreign", line, "stream failed")
         if not st.branch(self.FIN(s), f"yf-fin@{line}"):
-            # an infinite stream is yielded forever
+            # an infinite stream is yielded forever: the generator never
+            # terminates; what it yields is `outs`
             st.ghost["__diverged"] = True
+            for k, cl in enumerate(fc.at_diverge):
+                eng.oblige(st, "at-diverge", line, eng.spec_bool(st, cl),
+                           cl.props, label=str(k))
+            if getattr(eng, "canaries", False):
+                eng.oblige(st, "canary", line, z3.BoolVal(False), [])
             raise E.PathEnd()
         return True
 
